@@ -190,3 +190,13 @@ def cr(v, depth=0):
     if callable(v) and n is not None:
         return "<fn %s>" % n
     return "<%s>" % type(v).__name__
+
+
+class MM:
+    """operand for the matrix-multiplication operators of the witness programs (kept here, uninstrumented)"""
+
+    def __matmul__(self, o):
+        return self
+
+    def __imatmul__(self, o):
+        return self
